@@ -20,6 +20,7 @@ def configs(tier, oracles=('model',)):
         for dt, atom, it, route in sel:
             add(dt, atom, it, route, 3)
         add('<i2', [], 'int8', 'create', 3, ['big'])      # index overflow of a small index type within reach
+        add('<f8', [2, 3], 'int64', 'asS', 2)             # created from a strided (non-contiguous) first subarray
     else:
         # every (value type, byte order) with two (atom, index type, route) combinations, rotated so that every atom, index
         # type and route occurs with every type kind; and the full atom x index type x route table for two value types
@@ -37,6 +38,8 @@ def configs(tier, oracles=('model',)):
                     k += 1
         for dt, atom, it, route in [('<f8', [], 'int64', 'create'), ('>i4', [2], 'uint8', 'as2')]:
             add(dt, atom, it, route, 5)
+        add('<f8', [2, 3], 'int64', 'asS', 3)
+        add('>i2', [2], 'int32', 'asS', 3)
         for dt, atom, it, route in [('<i2', [], 'int8', 'create'), ('|u1', [2], 'uint8', 'as2'), ('<f4', [], 'int8', 'gen')]:
             add(dt, atom, it, route, 3, ['big'])
     cfgs.sort(key=lambda c: -c['Nmax'])
